@@ -12,3 +12,15 @@ if _src is not None:
     _d['tiers'] = ('quick', 'thorough')
     _d['what'] = 'masking clause (C05) of ' + _src.get('what', '')
     K('C05.e3.22', **_d)
+
+# ---------------------------------------------------------------- C05.x: masking clause of unique-neighbourhood cross-validation
+# same harness and kernel as C04.e.formula.2 (every mask / undefined-value pattern): a masked sample takes no part in
+# the ranking of the rows of the inverse kriging matrix (KrigingSystem::_getFlagAddress, _estimateCalculXvalidUnique)
+_src = _k.KERNELS.get('C04.e.formula.2')
+if _src is not None:
+    _d = dict(_src)
+    _d.pop('id', None)
+    _d['property'] = 'C05'
+    _d['tiers'] = ('quick', 'thorough')
+    _d['what'] = 'masking clause (C05) of ' + _src.get('what', '')
+    K('C05.x.2', **_d)
